@@ -401,16 +401,21 @@ prop('C20', level='other', units=[PL + 'plot_cyclepoints_array', PL + 'plot_cycl
      assumptions=['the time grid np.arange(0, n / fs, 1 / fs) is taken as the exact grid i / fs over the reals and (i / fs) * fs as i: the '
                   'floating-point behaviour of the grid (where D10, D12 - D14 lived) is NOT covered by the deductive part; it stays with '
                   'the bounded job'],
-     explanation='Proved, WITHOUT x-limits, for every signal, rate and cyclepoint arrays: plot_cyclepoints_array (10 typed cases: which '
-                 'kinds are given, plot_sig) hands the marker call one (x, y) series per given kind, in the order peaks / troughs / '
-                 'rises / decays, and the series of a kind consists of cyclepoints of that kind only, in order, each at (sample / fs, '
-                 'signal value at that sample), including every cyclepoint strictly inside the view (whether one exactly on the first '
-                 'or last sample is drawn is left open: four boundary conventions); all indexing in range. plot_cyclepoints_df (10 '
-                 'cases: both centrings x the kind switches x plot_sig) passes to the array version the centre extremum column of the '
-                 'table\'s own centring as first kind, the sorted union of the opening and closing side extrema as second kind (each '
-                 'value once, nothing else), the rise / decay columns as third / fourth, None for a kind switched off, and the '
-                 'signal, rate and limits unchanged - the trough-centred column names of the statement. '
-                 'Bounded only: everything under x-limits (index shift, windows, D12 - D14), plot_burst_detect_summary / _param / '
-                 'Bycycle.plot (burst mask, parameter panels, threshold lines): the arguments handed to the drawing routines are '
-                 'intercepted on corpus tables x sample-grid windows incl. low-truncating grid points and windows on cycle '
+     explanation='Proved for every signal, rate and cyclepoint arrays, without x-limits and with x-limits ON THE SAMPLE GRID (first / fs, '
+                 'stop / fs) for any two integers 0 <= first < stop <= len(sig) - the quantifier of the statement: '
+                 'plot_cyclepoints_array (15 typed cases: limits, which kinds are given, plot_sig) hands the marker call one (x, y) '
+                 'series per given kind, in the order peaks / troughs / rises / decays, and the series of a kind consists of '
+                 'cyclepoints of that kind only, in order, each at (sample / fs, value of the ORIGINAL signal at that sample), '
+                 'including every cyclepoint strictly inside the view - the displayed sample range [first, stop - 1] (whether a '
+                 'cyclepoint exactly on its first or last sample is drawn is left open: four boundary conventions); all indexing in '
+                 'range. Under limits the argument is: the two successive mask selections of limit_signal (executed in place) keep '
+                 'exactly the samples first .. stop - 1 (counting functions of the two selections, one induction each), so entry j of '
+                 'the limited arrays is entry first + j of the originals and the index shift int(round(times[0] * fs)) is first. '
+                 'plot_cyclepoints_df (20 cases: both centrings x the kind switches x plot_sig x limits) passes to the array version '
+                 'the centre extremum column of the table\'s own centring as first kind, the sorted union of the opening and closing '
+                 'side extrema as second kind (each value once, nothing else), the rise / decay columns as third / fourth, None for a '
+                 'kind switched off, and the signal, rate and limits unchanged - the trough-centred column names of the statement. '
+                 'Bounded only: x-limits off the grid, the floating-point side of the grid (D12 - D14), plot_burst_detect_summary / '
+                 '_param / Bycycle.plot (burst mask, parameter panels, threshold lines): the arguments handed to the drawing routines '
+                 'are intercepted on corpus tables x sample-grid windows incl. low-truncating grid points and windows on cycle '
                  'boundaries; rendered artists are not inspected.')
